@@ -124,11 +124,25 @@ func indexOf(s, sub string) int {
 // vacuousFunction: every cover query (one per return / exit point) is unsat.
 func vacuousFunction(obs []*Obligation) bool {
 	n, dead := 0, 0
+	// a loop under invariants none of whose back edges can be taken proves its inv-steps vacuously
+	// (a single dead back edge is normal: the jump after a noreturn call)
+	live := map[int]bool{}
+	seen := map[int]bool{}
 	for _, ob := range obs {
 		if ob.Cover && ob.BackEdge {
-			if ob.Res.Status == "unsat" {
-				return true // a loop body under invariants that can never complete an iteration
+			seen[ob.LoopHdr] = true
+			if ob.Res.Status != "unsat" {
+				live[ob.LoopHdr] = true
 			}
+		}
+	}
+	for h := range seen {
+		if !live[h] {
+			return true
+		}
+	}
+	for _, ob := range obs {
+		if ob.Cover && ob.BackEdge {
 			continue
 		}
 		if ob.Cover {
